@@ -133,9 +133,9 @@ def lex_space(tier):
     add("NOTATION", Words(["a", "1", ":", "-", "p", " "], 3 if q else 5))
     add("anyURI", Words(["a", ":", "/", "#", "%", "?", "2", " "], 4 if q else 5))
     add("boolean", Words(["true", "false", "1", "0", "T", "t", " ", "\t"], 3 if q else 5))
-    add("decimal", Words(["+", "-", "0", "1", "9", ".", " "], 5 if q else 7))
+    add("decimal", Words(["+", "-", "0", "1", "9", ".", " "], 5 if q else 6))
     for n in O.INTEGER_TYPES:
-        add(n, Words(["+", "-", "0", "1", "9", " "], (5 if n == "integer" else 3) if q else (7 if n == "integer" else 5)),
+        add(n, Words(["+", "-", "0", "1", "9", " "], (5 if n == "integer" else 3) if q else (6 if n == "integer" else 5)),
             Product([["", "+", "-"], ["", "0", "00"], [str(m) for m in INT_MAGS], ["", ".", ".0"]]))
     for n in ("float", "double"):
         add(n, Words(["+", "-", "0", "1", ".", "E", "e", "INF", "NaN", " "], 4 if q else 5),
@@ -622,6 +622,12 @@ def uses_builtin(tdef, names):
     return uses_builtin(tdef["r"], names)
 
 
+def uses_facet(tdef, name):
+    if "r" in tdef:
+        return any(k == name for k, v in tdef["f"]) or uses_facet(tdef["r"], name)
+    return False
+
+
 def float_band(T, lex):
     """finite literal whose magnitude lies where Xerces' documented clamping and IEEE rounding may legitimately differ (see docs/c09.md)"""
     return T.variety == "atomic" and isinstance(T.prim, O.Float) and T.prim.band(lex)
@@ -865,8 +871,14 @@ def process_segment(space, drv, tdefs, Ts, cases, pairs, tag, acc, pk, pstate):
             acc.count("no_validator_xsvalue_only" if nodv else "dv_valid" if dv_ok else "dv_invalid")
             if not dv_ok and not nodv:
                 acc.count("exc:" + f[1][2:])
+            qenum = T.variety == "atomic" and isinstance(T.prim, O.QNameT) and uses_facet(tdefs[tid], "enumeration")
             if st == "U":
                 acc.count("oracle_unspecified")
+            elif qenum:
+                # QName/NOTATION values are (namespace, local name) pairs: the stand-alone validator has no namespace context and skips
+                # the enumeration (QNameDatatypeValidator::checkContent); judged in-parse only
+                acc.count("qname_enumeration_needs_context_not_judged")
+                dvres.pop(ci, None)
             elif nodv:
                 acc.count("oracle_valid" if st == "V" else "oracle_invalid")
             else:
@@ -1337,6 +1349,7 @@ def run_space(run, tier, out_path, env):
     # the orchestrator treats counted-but-unlisted violations as unclassifiable: list cap per kind is intentional, so report the per-kind totals
     out["violation_totals"] = {k[11:]: v for k, v in cnt.items() if k.startswith("violations:")}
     out["violation_totals_by_type"] = by_type
+    out["nonvacuity"] = {"violation_totals_by_type": by_type, "listed_violations_are_a_capped_selection": True}
     cnt["violations"] = len(out["violations"])
     json.dump(out, open(out_path, "w"))
     if not os.environ.get("XV_KEEP"):
@@ -1415,8 +1428,9 @@ def _cov(results):
 
 SPEC = dict(
     level="exploration",
-    rule="Three sub-spaces, each enumerated completely. lex: for each of the 44 built-in types every string of length <= L over a per-type lexical alphabet of 5-11 symbols "
-         "(L = 3..5 quick, 4..8 thorough) plus field-wise products (sign x leading zeros x 24 boundary magnitudes x fraction suffix for the 13 integer types; "
+    rule="Three sub-spaces, each enumerated completely (sizes: quick 210394 + 102464 + 40912, thorough 2697457 + 661483 + 100424 cases; alphabets and bounds per type in docs/c09.md "
+         "and in the evidence 'bounds'). lex: for each of the 44 built-in types every string of length <= L over a per-type lexical alphabet of 5-11 symbols "
+         "(L = 3..5 quick, 4..7 thorough) plus field-wise products (sign x leading zeros x 24 boundary magnitudes x fraction suffix for the 13 integer types; "
          "year x month x day x hour x minute x second x zone for the date/time types; mantissa x exponent for float/double; component products for duration). "
          "facets: ~600 derived types (every single facet and pairs of facets at boundary values on string-like, decimal/integer, float/double, date/time, binary, "
          "QName/anyURI/boolean bases; 2- and 3-step restriction chains; lists, unions, lists of unions, unions of lists) x all value words <= 3 (quick) / 4-5 (thorough) over the base's "
@@ -1434,7 +1448,10 @@ SPEC = dict(
         "the order itself is observed through the bounding facets",
         "validators and XSValue are called with the literal after the type's whitespace processing (the parser does that processing itself; that path is checked in-parse)",
         "QName/NOTATION prefix binding, ID uniqueness, IDREF resolution and ENTITY declarations are checked only in-parse (the stand-alone calls have no validation context)",
-        "unions are only built from members with whiteSpace=collapse; length facets on QName/NOTATION are not judged",
+        "unions are only built from members with whiteSpace=collapse; length facets on QName/NOTATION are not judged; enumerations on QName/NOTATION are judged in-parse only",
+        "canonical literals: validity is not judged for pattern-restricted types (a pattern may exclude the primitive's canonical literal); the form of canonical literals of "
+        "float/double values produced by the documented out-of-bound conversion is not judged; XSValue returns st_NoContent for blank content",
+        "two crashing library calls are skipped behind KNOWN_DEFECTS in drv/c09_dtv.cpp (counted as known_defect_skipped:*), one unguarded canary each keeps reporting them",
     ],
     coverage=_cov,
     runs=dict(
